@@ -46,10 +46,6 @@ def make_cases(rng, tier):
             build = [r for r in build if r['d'][0] != classes[-1]]
         match = [{'t': [rng.randint(0, hi) for _ in range(S)], 'd': [rng.choice(classes) for _ in range(W)]} for _ in range(rng.randint(1, 5))]
         cases.append({'c': {'S': S, 'W': W, 'classes': classes, 'variant': 'fixed'}, 'build': build, 'match': match})
-    # building sets of more than a thousand traces: a small set presented rep times (TplCases.BuildReplication gives the profile), read as ONE batch
-    for j in (0, 1):
-        base = cases[j * 3]
-        cases.append({'c': dict(base['c']), 'build': base['build'], 'match': base['match'], 'rep': [173, 260][j]})
     # orthogonal designs: within every class the two samples are exactly uncorrelated, so the pooled covariance is exactly diagonal (in every precision);
     # presented with sample 0 multiplied by 4096 (TplCases.ScalingLemma) the two samples differ by seven orders of magnitude in variance
     for means in ([(2, 1), (6, 3)], [(3, 2), (9, 1), (5, 5)]):
@@ -120,6 +116,21 @@ def run(chk):
     chk.add_tlc('MC:template-mean(pinned rule, must be refuted)', r0)
     if not r0.violated:
         raise tlc.TLCError('TplCases lost sensitivity: "count <= 1 -> 2 before the mean" is no longer refuted')
+    # building sets of more than a thousand traces: a small set presented rep times (TplCases.BuildReplication gives the profile), read as ONE batch.
+    # The exact rationals of a replicated profile can leave TLC's 32-bit integers: candidates (one-sample cases first) are tried until two are evaluated.
+    reps = []
+    for base in sorted([c_ for c_ in cases if not c_.get('scale0')], key=lambda c_: (c_['c']['S'], len(c_['c']['classes']), len(c_['build'])))[:10]:
+        cand = {'c': dict(base['c']), 'build': base['build'], 'match': base['match'], 'rep': [173, 260][len(reps)]}
+        try:
+            st.cases_run(chk, 'TplCases', [cand], ['BuildReplication'], f'CASES:replicated building set (candidate {len(reps) + 1})')
+        except tlc.TLCError as ex:
+            if 'Overflow' in str(ex):
+                continue
+            raise
+        reps.append(cand)
+        if len(reps) == 2:
+            break
+    cases += reps
     res = st.cases_run(chk, 'TplCases', cases, ['PInvLemma', 'KMatchesP', 'ScalingLemma', 'BuildReplication'], 'CASES:templates')
     # (dtype, scale, offset): the last two ride on offsets whose squares do not fit the traces' own integer type (templates shift, covariance and scores do not)
     pres = [('uint8', 1.0, 0), ('int16', 1.0, 0), ('float32', 0.5, 0), ('float64', 0.25, 0), ('uint8', 1.0, 100), ('int16', 1.0, 300)]
@@ -129,7 +140,7 @@ def run(chk):
             c = case['c']
             S = c['S']
             dt, sc, off = pres[ci % len(pres)]
-            if off and not all(any(r['d'][0] == cv for r in case['build']) for cv in c['classes']):
+            if off and (case.get('rep') or not all(any(r['d'][0] == cv for r in case['build']) for cv in c['classes'])):        # (replicated sets with an offset leave the exact range of float32 sums)
                 off = 0            # a declared class without building traces keeps the zero template: the profile is shift-equivariant only when every class is populated
             for bs in ([None, 700] if case.get('rep') else [None, 3] if chk.tier == 'quick' else [None, 1, 2, 5]):
                 scared.set_batch_size(bs)
